@@ -150,10 +150,22 @@ func (r *Run) CaseSeed(i int) int64 {
 func (r *Run) Rand(i int) *rand.Rand { return rand.New(rand.NewSource(r.CaseSeed(i))) }
 
 // Begin records the case about to run (crash attribution) and counts it.
+// CaseHook, when set, is called at the start of every 2000th case (housekeeping between cases, e.g. dropping the
+// library's per-resource statistic nodes of finished cases: every case uses fresh resource names, and millions of
+// them would otherwise stay in memory during a thorough run).
+var CaseHook func()
+
+func (r *Run) caseStart() {
+	if r.P.Evaluations%2000 == 0 && CaseHook != nil {
+		CaseHook()
+	}
+}
+
 func (r *Run) Begin(i int, desc interface{}) {
 	r.mu.Lock()
 	r.curCase = i
 	r.P.Evaluations++
+	r.caseStart()
 	r.mu.Unlock()
 	if r.curPath != "" {
 		b, _ := json.Marshal(map[string]interface{}{"property": r.P.Property, "engine": r.P.Engine,
@@ -167,6 +179,7 @@ func (r *Run) Eval(i int) {
 	r.mu.Lock()
 	r.curCase = i
 	r.P.Evaluations++
+	r.caseStart()
 	r.mu.Unlock()
 }
 
